@@ -21,16 +21,22 @@ import (
 
 	"github.com/hashicorp/raft"
 	"github.com/rqlite/rqlite/v10/command/proto"
-	"github.com/rqlite/rqlite/v10/snapshot"
 )
 
 type c04Op struct {
-	Kind string `json:"kind"`           // write | snap | load | boot | install | reap | restart
-	Keys []int  `json:"keys,omitempty"` // write: keys touched
-	Val  int    `json:"val,omitempty"`  // write: value (0 = delete)
-	Out  string `json:"out,omitempty"`  // snap: ok | notinvoked | failbefore | failafter | blocked (checkpoint blocked by a reader)
-	Data []int  `json:"data,omitempty"` // load/boot/install: cells of the incoming database
-	Wal  bool   `json:"wal,omitempty"`  // load/boot: the incoming file is in WAL journal mode
+	Kind string   `json:"kind"`           // write | snap | load | boot | install | reap | restart
+	Keys []int    `json:"keys,omitempty"` // write: keys touched
+	Val  int      `json:"val,omitempty"`  // write: value (0 = delete)
+	Out  string   `json:"out,omitempty"`  // snap: ok | notinvoked | failbefore | failafter | blocked (checkpoint blocked by a reader)
+	Data []int    `json:"data,omitempty"` // load/boot/install: cells of the incoming database
+	Wal  bool     `json:"wal,omitempty"`  // load/boot: the incoming file is in WAL journal mode
+	Segs []c04Seg `json:"segs,omitempty"` // install: the sender's un-reaped incremental snapshots on top of Data (each one write batch)
+}
+
+// one incremental snapshot of the sender: the cells its WAL file assigns
+type c04Seg struct {
+	Keys []int `json:"keys"`
+	Val  int   `json:"val"`
 }
 
 type c04Input struct {
@@ -41,7 +47,8 @@ type c04Obs struct {
 	Res      int // 0 done, 1 nothing to snapshot (ErrNoWALToSnapshot), 2 other error
 	Staged   int
 	Cat      []vsSnap
-	CatIdx   []int // projected index of each catalog entry (number of driver-issued log entries covered)
+	CatIdx   []int    // projected index of each catalog entry (number of driver-issued log entries covered)
+	Chain    [][2]int // WAL files ResolveFiles returns for the newest snapshot, in order: (owner snapshot, 0 = newest; position in it)
 	FullNeed bool
 	Restored []int
 	Rebuilt  []int
@@ -74,6 +81,7 @@ type c04Run struct {
 	n       *vsNode
 	scratch string
 	entries []c04Entry
+	ndonor  int
 	spec    []int // reference: the applied state by the property text (write = upsert, load/boot/install = replace)
 }
 
@@ -173,30 +181,66 @@ func (r *c04Run) step(op c04Op) (res int, err error) {
 		r.entries = append(r.entries, c04Entry{Idx: s.raft.AppliedIndex(), Noop: true})
 		copy(r.spec, op.Data)
 	case "install":
-		// what raft's installSnapshot does on a follower: Create, stream, Close, then FSM.Restore of that snapshot
-		p := filepath.Join(r.scratch, "donor.db")
-		if err := vsMakeDB(p, op.Data, true); err != nil {
+		// A sender (a real store of its own) takes a full snapshot of Data and one incremental snapshot per
+		// segment, none reaped; its newest snapshot is streamed the way raft sends it (database + WAL files).
+		// The receiver does what raft's installSnapshot does: Create, stream, Close, then FSM.Restore of it.
+		r.ndonor++
+		donor := vsNewNode(filepath.Join(r.scratch, fmt.Sprintf("donor%d", r.ndonor)), "d1")
+		defer func() {
+			donor.s.Close(true)
+			donor.ln.Close()
+			os.RemoveAll(donor.dir)
+		}()
+		if err := donor.openSingle(true); err != nil {
 			return 2, err
 		}
-		st, err := snapshot.NewSnapshotStreamer(p)
+		stmts := []string{vsTableDDL}
+		for i, v := range op.Data {
+			if v != 0 {
+				stmts = append(stmts, vsCellStmts([]int{i + 1}, v)...)
+			}
+		}
+		if _, err := donor.exec(stmts); err != nil {
+			return 2, err
+		}
+		if err := donor.s.Snapshot(0); err != nil {
+			return 2, fmt.Errorf("sender full snapshot: %v", err)
+		}
+		final := append([]int{}, op.Data...)
+		for _, sg := range op.Segs {
+			if _, err := donor.exec(vsCellStmts(sg.Keys, sg.Val)); err != nil {
+				return 2, err
+			}
+			if err := donor.s.Snapshot(0); err != nil {
+				return 2, fmt.Errorf("sender incremental snapshot: %v", err)
+			}
+			for _, k := range sg.Keys {
+				final[k-1] = sg.Val
+			}
+		}
+		dcat := vsCatalog(donor.s.snapshotDir)
+		if len(dcat) != 1+len(op.Segs) {
+			return 2, fmt.Errorf("sender has %d snapshots, want %d", len(dcat), 1+len(op.Segs))
+		}
+		_, st, err := donor.s.snapshotStore.Open(dcat[0].ID)
 		if err != nil {
-			return 2, err
-		}
-		if err := st.Open(); err != nil {
 			return 2, err
 		}
 		time.Sleep(3 * time.Millisecond) // snapshot ids carry a millisecond timestamp
 		cf := s.raft.GetConfiguration()
 		if err := cf.Error(); err != nil {
+			st.Close()
 			return 2, err
 		}
-		_, term := s.raft.LastIndex(), s.raft.CurrentTerm()
+		term := s.raft.CurrentTerm()
 		idx := s.raft.AppliedIndex()
 		sink, err := s.snapshotStore.Create(raft.SnapshotVersionMax, idx, term, cf.Configuration(), 1, nil)
 		if err != nil {
+			st.Close()
 			return 2, err
 		}
 		if _, err := io.Copy(sink, st); err != nil {
+			st.Close()
 			sink.Cancel()
 			return 2, err
 		}
@@ -211,7 +255,7 @@ func (r *c04Run) step(op c04Op) (res int, err error) {
 		if err := s.fsmRestore(rc); err != nil {
 			return 2, err
 		}
-		copy(r.spec, op.Data)
+		copy(r.spec, final)
 		// every entry issued so far is covered by the installed snapshot
 	case "reap":
 		if _, _, err := s.Reap(); err != nil {
@@ -239,6 +283,7 @@ func (r *c04Run) observe(res int) (c04Obs, string) {
 	o.FullNeed = vsFileExists(filepath.Join(s.snapshotDir, "FULL_NEEDED"))
 	o.Live = r.n.dump()
 	note := ""
+	o.Chain = vsResolvedChain(s.snapshotDir, o.Cat)
 	dst := filepath.Join(r.scratch, "restored.db")
 	os.Remove(dst)
 	os.Remove(dst + "-wal")
@@ -309,7 +354,11 @@ func c04CoqOp(op c04Op) string {
 	case "boot":
 		return "(OBoot " + vsCoqNList(op.Data) + ")"
 	case "install":
-		return "(OInstall " + vsCoqNList(op.Data) + ")"
+		segs := make([]string, len(op.Segs))
+		for i, sg := range op.Segs {
+			segs[i] = coqPair(vsCoqNList(sg.Keys), coqN(uint64(sg.Val)))
+		}
+		return "(OInstall " + vsCoqNList(op.Data) + " " + coqList(segs) + ")"
 	case "reap":
 		return "OReap"
 	case "restart":
@@ -323,8 +372,12 @@ func c04CoqObs(o c04Obs) string {
 	for i, c := range o.Cat {
 		cat[i] = fmt.Sprintf("(%s, %s, %s)", coqBool(c.Full), coqN(uint64(o.CatIdx[i])), coqN(uint64(c.NWal)))
 	}
-	return fmt.Sprintf("{| o_res := %s; o_staged := %s; o_cat := %s; o_full := %s; o_restored := %s; o_rebuilt := %s; o_live := %s |}",
-		coqN(uint64(o.Res)), coqN(uint64(o.Staged)), coqList(cat), coqBool(o.FullNeed), vsCoqNList(o.Restored), vsCoqNList(o.Rebuilt), vsCoqNList(o.Live))
+	chain := make([]string, len(o.Chain))
+	for i, c := range o.Chain {
+		chain[i] = coqPair(coqN(uint64(c[0])), coqN(uint64(c[1])))
+	}
+	return fmt.Sprintf("{| o_res := %s; o_staged := %s; o_cat := %s; o_chain := %s; o_full := %s; o_restored := %s; o_rebuilt := %s; o_live := %s |}",
+		coqN(uint64(o.Res)), coqN(uint64(o.Staged)), coqList(cat), coqList(chain), coqBool(o.FullNeed), vsCoqNList(o.Restored), vsCoqNList(o.Rebuilt), vsCoqNList(o.Live))
 }
 
 // c04Nontrivial: >= 1 non-ok persist outcome of an incremental snapshot that leaves a staged WAL, later a
@@ -526,12 +579,12 @@ func c04Gen(rng *rand.Rand, maxOps int) c04Input {
 				wroteSince = false // every other attempt checkpoints the WAL: a reader then has nothing to block
 			}
 			ops = append(ops, c04Op{Kind: "snap", Out: o})
-		case x < 15:
+		case x < 14:
 			val += 10
 			copy(cur, c04RandCells(rng, val))
 			fullDue, wroteSince = true, false
 			ops = append(ops, c04Op{Kind: "load", Data: append([]int{}, cur...), Wal: rng.Intn(2) == 0})
-		case x < 16:
+		case x < 15:
 			val += 10
 			copy(cur, c04RandCells(rng, val))
 			fullDue = false
@@ -540,7 +593,28 @@ func c04Gen(rng *rand.Rand, maxOps int) c04Input {
 			val += 10
 			copy(cur, c04RandCells(rng, val))
 			fullDue = false
-			ops = append(ops, c04Op{Kind: "install", Data: append([]int{}, cur...)})
+			op := c04Op{Kind: "install", Data: append([]int{}, cur...)}
+			for k := rng.Intn(4); k > 0; k-- { // the sender's chain: full + 0..3 un-reaped incrementals
+				val++
+				sg := c04Seg{Keys: c04RandKeys(rng), Val: val}
+				for _, key := range sg.Keys {
+					cur[key-1] = val
+				}
+				op.Segs = append(op.Segs, sg)
+			}
+			ops = append(ops, op)
+			// the receiver goes on from the installed chain: own writes over the same rows, own incrementals, reap, rebuild
+			for k := 1 + rng.Intn(3); k > 0 && len(ops) < n; k-- {
+				ops = append(ops, w())
+				switch rng.Intn(4) {
+				case 0:
+					ops = append(ops, c04Op{Kind: "reap"})
+				case 1:
+					ops = append(ops, c04Op{Kind: "snap", Out: "notinvoked"})
+				default:
+					ops = append(ops, c04Op{Kind: "snap", Out: "ok"})
+				}
+			}
 		case x < 18:
 			ops = append(ops, c04Op{Kind: "reap"})
 		default:
@@ -583,6 +657,20 @@ func c04Corpus() []c04Input {
 			out = append(out, c04Input{Ops: ops})
 		}
 	}
+	// a chain "full + k incrementals" installed from a sender that has not reaped, then the receiver's own writes
+	// over the same rows, its own incremental snapshots, a reap and restarts, in different orders
+	G := func(a, b, v int) c04Seg { return c04Seg{Keys: keys(a, b), Val: v} }
+	for k := 0; k <= 3; k++ {
+		segs := []c04Seg{G(1, 10, 2), G(6, 16, 3), G(1, 4, 4)}[:k]
+		inst := c04Op{Kind: "install", Data: all(1), Segs: segs}
+		out = append(out,
+			c04Input{Ops: []c04Op{W(1, 3, 9), S("ok"), inst, W(2, 12, 5), S("ok"), W(8, 20, 6), S("ok"), {Kind: "restart"}, {Kind: "reap"}, W(1, 2, 7), S("ok"), {Kind: "restart"}}},
+		)
+	}
+	out = append(out,
+		c04Input{Ops: []c04Op{W(1, 3, 9), S("ok"), {Kind: "install", Data: all(1), Segs: []c04Seg{G(1, 10, 2), G(6, 16, 3)}}, {Kind: "reap"}, W(2, 12, 5), S("ok"), {Kind: "restart"}, W(3, 9, 6), S("notinvoked"), W(4, 5, 7), S("ok"), {Kind: "reap"}}},
+		c04Input{Ops: []c04Op{{Kind: "install", Data: all(1), Segs: []c04Seg{G(1, 24, 2)}}, W(1, 24, 3), S("failbefore"), W(1, 12, 4), S("ok"), {Kind: "install", Data: all(5), Segs: []c04Seg{G(3, 9, 6), G(5, 14, 7), G(1, 6, 8)}}, W(4, 10, 9), S("ok"), {Kind: "reap"}, {Kind: "restart"}}},
+	)
 	// snapshot attempts that fail (each refreshes the in-memory "database file modified" time) between a load
 	// and the next successful snapshot: only the durable FULL_NEEDED flag still says that a full one is due
 	for _, failing := range [][]c04Op{{S("notinvoked")}, {S("blocked")}, {S("failbefore")}, {S("blocked"), S("notinvoked")}} {
@@ -616,7 +704,7 @@ func TestVerif_C04(t *testing.T) {
 		return
 	}
 	ins := c04Corpus()
-	n := vN(16, 1500)
+	n := vN(12, 1500)
 	maxOps := 12
 	if vTier() == "thorough" {
 		maxOps = 30
